@@ -89,6 +89,25 @@ def run(ctx):
             ctx.inst("C20/D1", "header fields", seq == want_seq, "parts concatenated: %s (expected %s)" % (seq, want_seq), pack["at"])
             ctx.inst("C20/D1", "payload appended verbatim after the header", seq == want_seq and all(
                 not lf.via for lf in pb.trace(arr0[0].data[2]["ops"][-1])), "the last part is the payload parameter itself", pack["at"])
+    if len(rl0) == 1 and rl0[0].kind == "call" and callee_name(rl0[0].data[1]) in ("std::slice::join", "core::slice::join", "alloc::slice::join") and not parts_form:
+        # the encoding written as fields.join(separator): every field once, the separator between any two
+        jt = rl0[0].data[1]
+        THRU = {"__flow_all__": lambda tt: callee_name(tt) in ("core::str::as_bytes", "std::string::String::as_bytes", "std::string::ToString::to_string",
+                                                               "std::string::String::as_str", "std::ops::Deref::deref")}
+        arrj = pb.trace(jt["args"][0])
+        sl = pb.trace(jt["args"][1])
+        sepv = [l.data.get("int") for l in sl if l.kind == "const" and l.data.get("int") is not None]
+        if len(arrj) == 1 and arrj[0].kind == "agg" and arrj[0].data[2].get("agg") == "array" and len(sl) == 1 and len(sepv) == 1 and 0 < sepv[0] < 128:
+            parts_form = True
+            consts["sep"] = chr(sepv[0])
+            seq = []
+            for o in arrj[0].data[2]["ops"]:
+                k_ = classify(pb.trace(o, (), None, THRU))
+                seq.append(next(iter(k_)) if len(k_) == 1 else "mixed:" + ",".join(sorted(k_)))
+            want_seq = ["prefix", "len(type)", "type", "len(payload)", "payload"]
+            ctx.inst("C20/D1", "header fields", seq == want_seq and consts["sep"].strip() == "", "fields joined by %r: %s (expected %s)" % (consts["sep"], seq, want_seq), pack["at"])
+            ctx.inst("C20/D1", "payload appended verbatim after the header", seq == want_seq and all(
+                not lf.via for lf in pb.trace(arrj[0].data[2]["ops"][-1])), "the last field is the payload parameter itself", pack["at"])
     prefix_const, sep_const = consts["prefix"], consts["sep"]
     if parts_form:
         kinds = set()
